@@ -73,10 +73,24 @@ def replay_states(ctx, states):
 
 def project_radical(v):
     """harness projection: a real/complex vector v -> (c, g) with v = g / sqrt(c), c a small positive integer, g Gaussian integers"""
-    for c in range(1, 65):
+    cands = list(range(1, 65))
+    # squared moduli that are rationals with a moderate denominator (e.g. Pythagorean parameters): c = lcm of the denominators
+    try:
+        from math import gcd
+        L = 1
+        for z in v:
+            m2 = abs(z) ** 2
+            if m2 > 1e-12:
+                q = Fraction(m2).limit_denominator(2000000).denominator
+                L = L * q // gcd(L, q)
+        if L < 2 ** 28:
+            cands += [L * k for k in (1, 2, 4, 5, 25) if L * k < 2 ** 28]
+    except Exception:
+        pass
+    for c in cands:
         w = v * math.sqrt(c)
         g = np.round(w.real) + 1j * np.round(w.imag)
-        if np.abs(w - g).max() < 1e-9:
+        if np.abs(w - g).max() < 1e-7 and np.abs(g).max() < 40000:
             return c, [[int(z.real), int(z.imag)] for z in g]
     return None
 
@@ -84,10 +98,15 @@ def project_radical(v):
 def upb_events(ctx):
     import numqi
     E = numqi.entangle
-    kinds = [('tiles', None), ('feng4x4', None), ('gentiles1', 4), ('gentiles2', (3, 4)), ('genshifts', 3), ('genshifts', 5), ('feng2x2x2x2', None), ('john2^8', None), ('min4x4', None), ('pyramid', None), ('quadres', 5), ('sixparam', None)]
+    kinds = [('tiles', None), ('feng4x4', None), ('gentiles1', 4), ('gentiles2', (3, 4)), ('genshifts', 3), ('genshifts', 5), ('feng2x2x2x2', None), ('john2^8', None), ('min4x4', None), ('pyramid', None), ('quadres', 5), ('sixparam', None), ('sixparam', 'pyth1'), ('sixparam', 'pyth2')]
     ev = []
     skipped = []
     for kind, args in kinds:
+        # sixparam with Pythagorean parameters: all cosines / sines / phases rational -> exactly representable complex UPB
+        pyth = {'pyth1': [math.atan2(4, 3), math.atan2(3, 4), math.atan2(4, 3), math.atan2(3, 4), math.atan2(4, 3), math.atan2(3, 4)],
+                'pyth2': [math.atan2(3, 4), math.atan2(4, 3), math.atan2(-4, 3), math.atan2(4, 3), math.atan2(3, 4), math.atan2(3, -4)]}
+        if isinstance(args, str):
+            args = pyth[args]
         try:
             upb, bes = E.load_upb(kind, args, return_bes=True, ignore_warning=True) if args is not None else E.load_upb(kind, return_bes=True, ignore_warning=True)
         except Exception as ex:
@@ -123,6 +142,7 @@ def upb_events(ctx):
         rank = int(np.linalg.matrix_rank(bes, tol=1e-8))
         ev.append(dict(op='upb', kind=kind, size=n, dim=D, rank=rank, parties=parties))
         ctx.case(('upb', kind, repr(args)))
+        ev[-1]['label'] = '%s %s' % (kind, '' if args is None else [round(float(a), 4) for a in np.atleast_1d(args)])
     ctx.extra['upb_kinds_not_exactly_representable'] = skipped
     return ev
 
